@@ -49,6 +49,8 @@ def gen_desc(rng, prop):
     d["personality"] = rng.choice(PERSONALITIES)
     d["victim"] = f"worker{rng.randrange(d['n_workers'])}"
     d["preempt"] = rng.random() < 0.8
+    # statement-level pre-emption inside helpers.py: off, rare, frequent
+    d["line_p"] = rng.choice([0.0, 0.0, 0.02, 0.1, 0.3, 0.6])
     # simulated processing times: most items are instantaneous, some are slow (stalled worker)
     delays = {}
     if rng.random() < 0.6:
@@ -291,6 +293,7 @@ def execute(prop, desc, rng=None):
     """returns (violation|None, outcome-summary)"""
     out = simulate(desc, rng)
     summ = {"steps": out.sched.steps, "sim_s": out.sched.now, "decisions": list(out.sched.decisions),
+            "line_decisions": list(out.sched.ldecisions), "line_yields": out.sched.line_yields,
             "stats": dict(out.sched.stats), "ledger": list(out.run["ledger"]), "fired": list(out.run["fired"]),
             "tasks": dict(out.tasks), "exc": type(out.exc).__name__ if out.exc is not None else None,
             "hang": out.hang, "trace_digest": digest_obj([(a, b) for _, a, b in out.sched.trace]),
@@ -330,6 +333,7 @@ def run_one(prop, rng, idx):
     counters = Counter()
     counters["scheduling_decisions"] = summ["steps"]
     counters["task_switches"] = summ["stats"]["switches"]
+    counters["line_preemptions_in_helpers"] = summ["line_yields"]
     counters["clock_jumps"] = summ["stats"]["clock_jumps"]
     counters["shm_attaches"] = summ["attaches"]
     counters["shm_segments_created"] = summ["segments"]
@@ -349,6 +353,7 @@ def run_one(prop, rng, idx):
     if v is not None:
         d2 = copy.deepcopy(desc)
         d2["decisions"] = summ["decisions"]
+        d2["line_decisions"] = summ["line_decisions"]
         res["violation"] = {"prop": v.prop, "inv": v.inv, "detail": str(v.detail)[:1500], "desc": d2}
     return res
 
@@ -396,6 +401,17 @@ def minimise(prop, desc, inv, budget=300):
             d = copy.deepcopy(cur)
             d["delays"] = {}
             cands.append(d)
+        if any(cur.get("line_decisions", [])):
+            d = copy.deepcopy(cur)
+            d["line_decisions"] = []
+            cands.append(d)
+            ld = cur["line_decisions"]
+            ones = [j for j, x in enumerate(ld) if x]
+            if len(ones) > 1:
+                for keep in (ones[: len(ones) // 2], ones[len(ones) // 2:]):
+                    d = copy.deepcopy(cur)
+                    d["line_decisions"] = [1 if j in set(keep) else 0 for j in range(len(ld))]
+                    cands.append(d)
         if any(cur.get("decisions", [])):
             d = copy.deepcopy(cur)
             d["decisions"] = [0] * len(cur["decisions"])
